@@ -289,6 +289,42 @@ for _p, (_e, _t) in _R5.items():
     if _e:
         CHECKS[_p]["engine"] += " " + _e
     CHECKS[_p]["text"] += _t
+
+# ---- round 6 additions ---------------------------------------------------------------------------------------------------
+_R6 = {
+    "C02": " Sealed boxes: the nonce derivation hashes (ephemeral public key, recipient public key), each once and completely, and seal / "
+           "seal_open hand it these two keys (R2.9) - only the nonce authenticates bit 255 of the ephemeral key.",
+    "C03": " In the assembly stream backends every `rep stos` / `rep movs` sequence covers exactly the length register it is given (R3.8, E17) - "
+           "the only clause decided for the .S units.",
+    "C04": " HMAC key preparation (R4.9): the caller's key is hashed first exactly on the paths with keylen >= B + 1, B being the length of "
+           "the ipad / opad block handed to the hash, and used directly only with keylen <= B.",
+    "C05": " Who-may-call (R5.7): primitive-specific units of crypto_box / crypto_scalarmult / crypto_kx / crypto_secretbox never call the generic "
+           "front end of their own operation (the front end stands for the default primitive, e.g. crypto_box_beforenm is the HSalsa20 derivation).",
+    "C07": " Bit 255 of the scalar never reaches ge25519_scalarmult(_base) (R7.12): on every path - with and without clamping - byte 31 of "
+           "the working copy handed to them was last written with a value whose bit 7 is known zero.",
+    "C08": " Argon2's variable-length hash H' uses a single BLAKE2b call exactly when outlen <= crypto_generichash_blake2b_BYTES_MAX, the chained "
+           "construction only for outlen >= BYTES_MAX + 1 (R8.7).",
+    "C09": " The authenticated length block is LE64(adlen) || LE64(64 + message length) of the caller's own length parameters, also when the "
+           "absorbing steps are factored into helpers (R9.5).",
+    "C10": " Every compiled stream backend carries its 64-bit block counter (R10.7 = the R3.2 engine of C03: write-backs of the high word depend "
+           "on the low word, no vector operation feeds a value derived from the high word alone into the state).",
+    "C12": " Blockwise output writes (R12.8): a write through a pointer parameter at a loop-dependent offset, on a path whose guards relate that "
+           "offset to a length parameter, fits the remainder those guards establish (constant extents incl. callees with a fixed or documented "
+           "*_BYTES output; variable extents by linear cancellation or a bounding fact).",
+    "C13": " R13.2 now covers every (c, m) function of the stream-cipher units; pointers that walk a buffer in lockstep (`c += 64; m += 64`) get "
+           "the same symbolic position.",
+    "C14": " Limb pairing in the assembly fast paths of sodium_add / sodium_sub (R14.7): every `op %reg, K(out)` uses a register loaded from "
+           "K(in) of the other operand with the same width, each limb once, limbs contiguous from 0.",
+    "C16": " sodium_unpad remembers what it scanned (R16.5): a loop-carried OR-accumulator receives every bit of every scanned byte and each of "
+           "its bits can influence the verdict of later iterations.",
+    "C17": " A protection change never touches the region (R17.5): the only memory _sodium_mprotect reads through the caller's pointer or the "
+           "recomputed region start is the size word of the header page.",
+    "C18": " Every dispatch in randombytes.c fetches the function pointer from the struct `implementation` points to at call time (R18.6).",
+    "C19": " The selectable randombytes_internal backend writes process-global generator state only under a zero-test of a process-global "
+           "(not thread-local) once-flag; no function in its vtable is an unguarded writer (R19.6; the stored getpid() result is the one named exception).",
+}
+for _p, _t in _R6.items():
+    CHECKS[_p]["text"] += _t
 _PENDING = "not claimed"
 NOT_APPLICABLE = {
     "C01": "every clause is an equality between computed byte strings and a mathematical specification over all keys/nonces/lengths/backends: "
